@@ -42,12 +42,15 @@ ASSUMPTIONS = [
     'op (Model.CText) and their content is decided by the direct checks object == fresh re-read == expected content',
     'appended rows fit the table (same domain as C01 cells), appended keys are identifiers different from every table name '
     '(they may re-state an existing keyword or be a case twin of one: dictionary semantics, Model.upd_pairs), '
-    'appended values satisfy hdr_ok; write() is given an explicit list of comments; row data come as lists holding numpy '
+    'appended values satisfy hdr_ok; write() is given its comments as a list / tuple, ONE string, None or not at all (round 6; a '
+    'multi-line string carries its own # on continuation lines: a string is written verbatim); row data come as lists holding numpy '
     'scalars of the column type for floats (python ints / str otherwise) or as record arrays',
     'a table key in mixed letter case (neither all-lower nor all-upper) is silently dropped by append(): outside the statement; '
     'a table given under both NAME and name keeps only the lower-case entry: specified as is (Model.spec_rows)',
     'domain of the theorems: Append.op_ok / hist_ok (decidable: hist_okb); the harness evaluates Append.in_domain on every '
-    'history it runs and reports histories_in_theorem_domain; write(comments=None) (time-stamped header) is not modelled',
+    'history it runs and reports histories_in_theorem_domain; the default header of write(comments=None) is a hand transliteration '
+    '(CommentsModel.comment_text (CmtNone ..)) tied by the file bytes: its text is computed by os.path.basename and an f-string that the '
+    'skeleton carries as opaque source text',
     'floats in histories have a text that is the same under str(numpy scalar) and repr(float): raw-mode write() respells '
     'other values (1e+10 -> 10000000000.0), equal as numbers',
     'the model keeps the typed (record-array) view of the object also in raw mode; raw dumps are compared through Types.raw_of',
@@ -472,6 +475,176 @@ def gen_text_history(rng, nops):
     return doc, ops
 
 
+# ---------------------------------------------------------------------------------------------- round 6: the comments option
+CWORDS = ['information', 'follows', 'in', 'the', 'pairs', 'below', 'and', 'must', 'be', 'kept', 'together', 'with', 'table', 'when', 'this',
+          'file', 'is', 'redistributed', '1', '2.5', '99', '-3', 'injected', 'by', 'a', 'comment', 'k', 'v', '{x}', 'a;b', '#', '##', "it's",
+          '"quoted"', 'mjd', '54579', 'x=1', '(see', 'above)', 'reprocessed', 'copy', 'of', 'observing', 'log', ',', '.', '%yanny', '{', '}', '{{}}']
+
+
+def comment_line(rng, h, lo, hi):
+    """a line of commentary of lo..hi characters; table names, keywords and numbers are among its words (a word that starts
+    a folded continuation line would be taken for a row or a keyword); single and double blanks, tabs"""
+    names = [t['name'].upper() for t in h.doc['tables']] + [t['name'].lower() for t in h.doc['tables']] + [kv[0] for kv in (h.doc.get('hdr') or [])]
+    target = rng.randint(lo, hi)
+    out = rng.choice(CWORDS + names)
+    while len(out) < target:
+        out += rng.choice([' ', ' ', ' ', '  ', '\t']) + rng.choice(CWORDS + names + names)
+    return out
+
+
+def gen_comment_value(rng, h):
+    """-> (cform, value): every form yanny.write(comments=...) documents.  All lines of the resulting header are comment lines
+    (a string is written VERBATIM: continuation lines of a multi-line string carry their own '#')."""
+    form = rng.choice(['list-long', 'list-long', 'tuple', 'str-short', 'str-long', 'str-long', 'str-hash', 'str-newline', 'str-multi', 'str-multi',
+                       'str-empty', 'none', 'absent', 'list-many'])
+    long_ = lambda: comment_line(rng, h, 79, rng.choice([90, 160, 400]))
+    short = lambda: comment_line(rng, h, 0, 40)
+    if form == 'list-long':
+        return 'list', [rng.choice([long_, long_, short])() for _ in range(rng.randint(1, 3))]
+    if form == 'list-many':
+        return 'list', [short() for _ in range(rng.randint(4, 12))]
+    if form == 'tuple':
+        return 'tuple', [rng.choice([long_, short])() for _ in range(rng.randint(1, 3))]
+    if form == 'str-short':
+        return 'str', short()
+    if form == 'str-long':
+        return 'str', long_()
+    if form == 'str-hash':
+        return 'str', rng.choice(['#', '# ', '#!', '##']) + rng.choice([long_, short])()
+    if form == 'str-newline':
+        return 'str', rng.choice([long_, short])() + '\n'
+    if form == 'str-multi':
+        lines = [rng.choice([long_, short])()] + [rng.choice(['#', '# ', '#  ', '##']) + rng.choice([long_, short, lambda: ''])() for _ in range(rng.randint(1, 4))]
+        return 'str', '\n'.join(lines) + rng.choice(['', '\n'])
+    if form == 'str-empty':
+        return 'str', ''
+    return form, None
+
+
+def gen_comment_history(rng):
+    """a short ordinary history, then ONE write with a comments value of some form (to a new name, onto an existing name, or
+    onto the own file), then appends / re-reads that go on from the file so written.  -> (doc, ops, index of the write)"""
+    doc = stabilise_doc(rng, G.gen_doc(rng, 'ndarray', ntables=rng.choice([1, 2, 2]), allow_u=False, max_rows=3))
+    if rng.random() < 0.4:
+        doc['plant'] = gen_plant(rng, doc)
+    h = Hist(doc)
+    ops = []
+    for _ in range(rng.randint(0, 3)):
+        op = gen_op(rng, h)
+        h.apply(op)
+        ops.append(op)
+    k = len(ops)
+    t = rng.random()
+    op = gen_op(rng, h, ['write_new'] if t < 0.8 else (['write_existing_other'] if t < 0.92 else ['write_over']))
+    cform, value = gen_comment_value(rng, h)
+    op.update(cform=cform, comments=value, clock=h.tick(), tag='%s:comments=%s' % (op['tag'], cform))
+    h.apply(op)
+    ops.append(op)
+    for _ in range(rng.randint(0, 3)):
+        op = gen_op(rng, h, ['append_rows', 'append_rows_rec', 'append_pairs', 'append_mixed', 'append_empty', 'reread', 'append_missing'])
+        h.apply(op)
+        ops.append(op)
+    return doc, ops, k
+
+
+CHEADER = HEADER.replace('C03.Total.', 'C03.Total C03.SkelLang C03.SkelSem C03.CommentsModel.')
+
+
+def cmt_term(op, target_name):
+    if op['cform'] in ('list', 'tuple'):
+        return '(CmtList %s)' % C.coq_list([G.blit(c) for c in op['comments']])
+    if op['cform'] == 'str':
+        return '(CmtStr %s)' % G.blit(op['comments'])
+    return '(CmtNone %s %s)' % (G.blit(target_name), G.blit(op['clock']))
+
+
+def evaluate_comment_histories(ctx, chists, dist, seen, groups):
+    """Three Coq cases per history: the prefix as an ordinary history (Model.step), the write itself (CommentsModel.CWriteC:
+    the source's write() skeleton executed with the comments value; +2 when the object is no longer the history content),
+    and the suffix as a history that starts from the TEXT of the file so written (Model.CText)."""
+    jobs = [job_of('c%05d' % i, doc, raw, ops) for i, (doc, raw, ops, k) in enumerate(chists)]
+    results, _ = run_jobs(ctx, jobs)
+    pre_terms, w_terms, suf_terms = [], [], []
+    pre_idx, w_idx, suf_idx = [], [], []
+    infos = []
+    for i, ((doc, raw, ops, k), res) in enumerate(zip(chists, results)):
+        bad, exps = direct_checks(doc, raw, ops, res)
+        infos.append(bad)
+        for op, st in zip(ops, res.get('steps', [])):
+            key = '%s:%s' % (op['tag'], st['outcome'])
+            dist[key] = dist.get(key, 0) + 1
+        if bad:
+            groups.setdefault(bad[0][1], []).append((len(ops), doc, raw, ops, bad, 0))
+        steps = res.get('steps', [])
+        if 'exc' in res.get('init', {}) or len(exps) < len(steps):
+            continue
+        if k > 0:
+            pre_terms.append(case_term(doc, raw, ops[:k], dict(res, steps=steps[:k]), exps[:k]))
+            pre_idx.append(i)
+        if len(steps) > k:
+            op, st = ops[k], steps[k]
+            before = steps[k - 1] if k > 0 else res['init']
+            target = op['path'] if op['path'] is not None else before['filename']
+            extra = C.coq_list(['(%s, %s)' % (G.blit(it['name']), G.blit(b'' if it['cls'] == 'dir' else bytes.fromhex(it['hex'])))
+                                for it in (doc.get('plant') or [])])
+            w_terms.append('(CWriteC %s %s %s %s %s %s %s %s)' % (
+                G.doc_term(doc), G.blit('f0.par'), C.boollit(raw), extra, C.coq_list([op_term(doc, o) for o in ops[:k]]),
+                'None' if op['path'] is None else '(Some %s)' % G.blit(op['path']), cmt_term(op, target), obs_term(st, raw, exps[k])))
+            w_idx.append(i)
+            if len(steps) > k + 1 and st['outcome'] == 'ok' and st.get('bytes_hex') is not None:
+                sub = list(zip(ops[k + 1:], steps[k + 1:], exps[k + 1:]))
+                suf_terms.append('(CText %s %s %s %s %s)' % (
+                    G.blit(bytes.fromhex(st['bytes_hex'])), G.blit(st['filename']), C.boollit(raw), state_term(st, raw, exps[k]),
+                    C.coq_list(['(%s, %s)' % (op_term(doc, o), obs_term(s_, raw, e_)) for o, s_, e_ in sub])))
+                suf_idx.append(i)
+    cc = C.CoqCases(ctx.work, HEADER, 'run_cases_all', shard=ctx.n(8, 40))
+    v_pre = cc.run(pre_terms, tag='cpre') if pre_terms else []
+    v_suf = cc.run(suf_terms, tag='csuf') if suf_terms else []
+    cw = C.CoqCases(ctx.work, CHEADER, 'run_ccases', shard=ctx.n(8, 40))
+    v_w = cw.run(w_terms, tag='cwrite') if w_terms else []
+    ctx.coverage['coq_eval_s'] = round(ctx.coverage.get('coq_eval_s', 0) + cc.coq_seconds + cw.coq_seconds, 1)
+    for i, v in zip(w_idx, v_w):
+        doc, raw, ops, k = chists[i]
+        if v & 4:
+            raise RuntimeError('generator produced a comments value whose header is not made of comment lines: %r' % (ops[k],))
+        if v == 8:
+            raise RuntimeError('initial document does not render/parse in the model: %r' % (doc,))
+        if infos[i]:
+            continue
+        if v & 2:
+            sig = 'C03:harness:python-and-coq-spec-disagree'
+        elif v & 1:
+            sig = 'C03:model:write-comments=%s' % ops[k]['cform']
+        else:
+            continue
+        if sig in seen:
+            continue
+        seen.add(sig)
+        ctx.violation(sig, 'write(comments=<%s>): the write() skeleton of the source, executed on this comments value, and the implementation '
+                      'disagree (outcome, file bytes or object) although the direct checks hold' % ops[k]['cform'],
+                      {'kind': 'broken-correspondence', 'item': 'C03.CommentsModel.model_write_c (Generated.YannyOps.write_skel executed)',
+                       'doc': doc, 'raw': raw, 'ops': ops, 'step': k + 1, 'verdict': v, 'observed': results[i]['steps'][k]}, False)
+    for which, idx, vs in (('prefix', pre_idx, v_pre), ('suffix', suf_idx, v_suf)):
+        for i, v in zip(idx, vs):
+            v &= ~4
+            if v == 0 or infos[i]:
+                continue
+            doc, raw, ops, k = chists[i]
+            sig = 'C03:model:step' if which == 'prefix' else 'C03:model:step-after-comment-write'
+            if sig in seen:
+                continue
+            seen.add(sig)
+            ctx.violation(sig, 'model and implementation disagree in the %s of a history with a write(comments=<%s>) although the direct checks hold'
+                          % (which, ops[k]['cform']),
+                          {'kind': 'broken-correspondence', 'item': 'C03.Model.step', 'doc': doc, 'raw': raw, 'ops': ops, 'verdict': v, 'part': which}, False)
+    ctx.coverage['comment_histories'] = {'histories': len(chists), 'coq_s': round(cc.coq_seconds + cw.coq_seconds, 1), 'write_cases': len(w_terms), 'prefix_cases': len(pre_terms), 'suffix_cases': len(suf_terms),
+                                         'by_form': {f: sum(1 for c in chists if c[2][c[3]]['cform'] == f) for f in ('list', 'tuple', 'str', 'none', 'absent')},
+                                         'longest_comment_line': max([len(l) for c in chists if isinstance(c[2][c[3]].get('comments'), (str, list))
+                                                                      for x in ([c[2][c[3]]['comments']] if isinstance(c[2][c[3]]['comments'], str) else c[2][c[3]]['comments'])
+                                                                      for l in x.split('\n')] + [0])}
+    return sum(len(r.get('steps', [])) for r in results)
+
+
 SEED_DOC = {'comments': ['seed'], 'hdr': [['k', 'v w']], 'enums': [['state', 'STATUS', ['FAILURE', 'SUCCESS']]], 'tables': [
     {'name': 'FOO', 'cols': [{'name': 'x', 'code': 'i4', 'arr': None}, {'name': 's', 'code': 'S6', 'arr': 2}],
      'rows': [[1, ['a b', '']]]},
@@ -815,7 +988,12 @@ def correspond(ctx, proof_ok=True):
         analyse(ctx, part, results, infos, verdicts, dist, seen, groups, outside)
         nsteps += sum(len(r.get('steps', [])) for r in results)
         del results, infos, verdicts, terms
-    report(ctx, hists, dist, nsteps, groups, outside, term_hashes, sample_term)
+    chists = []
+    for i in range(ctx.n(90, 900)):
+        doc, ops, k = gen_comment_history(rng)
+        chists.append((doc, rng.random() < 0.35, ops, k))
+    nsteps += evaluate_comment_histories(ctx, chists, dist, seen, groups)
+    report(ctx, hists + [(d, r, o) for d, r, o, _k in chists], dist, nsteps, groups, outside, term_hashes, sample_term)
 
 
 def analyse(ctx, hists, results, infos, verdicts, dist, seen, groups, outside):
